@@ -336,7 +336,8 @@ def save(outf, obj):
             return
 
     if hasattr(obj, '_save'):
-        obj._save(outf)
+        # (under the name load() looks for: 'result' is 'result.h5')
+        obj._save(default_extension(outf))
     elif hasattr(obj, 'to_dataset'):
         obj=obj.copy()
         # the values decide the type on file, not the file obj was loaded from
